@@ -361,6 +361,9 @@ func (g *genState) service(name string, i int) Svc {
 			}
 		}
 		// a placeholder may keep its getter, even one that another service uses too: it is not generated
+		if full.Getter == "" && src.Bool("stodogetter") {
+			full.Getter = "Get" + goIdent(name) + strconv.Itoa(i)
+		}
 		if full.Getter != "" && i > 0 && src.Bool("stodogetterdup") {
 			for _, other := range g.cfg.Services {
 				if other.Getter != "" {
